@@ -51,7 +51,7 @@ func init() {
 				checkAlphabetProvenance(p, r, "R2.1")
 			})
 			// … and a class flag stands for its documented characters (= C16 R16.1 class-table rules)
-			borrowSelected(p, r, runC16, "R7.7", func(o core.Obligation) bool { return o.Rule == "R16.1" && strings.HasPrefix(o.Construct, "class ") })
+			borrowSelected(p, r, runC16, "R7.7", func(o core.Obligation) bool { return o.Rule == "R16.1" && strings.HasPrefix(o.Construct, "class ") || o.Rule == "R16.6" && mentionsVar(o.Construct, classTableName(p)) })
 		},
 	})
 }
